@@ -523,6 +523,37 @@ pub fn check_vtype(ctx: &Ctx, kind: Kind, out: &mut Outcome, q: u32, t: u32) {
     finish(ctx, "", acc, found, out, "vtype", &exec, &shrink);
 }
 
+/// large-scale pass (10^3 .. 1.3 * 10^5 entries): code gated by size constants
+pub fn check_big(ctx: &Ctx, prop: crate::big::BigProp, kinds: &[Kind], out: &mut Outcome, q: u32, t: u32) {
+    use crate::big::*;
+    let th = ctx.tier == Tier::Thorough;
+    let kinds = kinds.to_vec();
+    let strat = move || big_strategy(kinds.clone(), th);
+    let exec = move |c: &BigCase| run_big(c, prop);
+    let hash_case = |c: &BigCase| {
+        let mut d = Case { kind: c.kind, cfg: Cfg::simple(c.a as usize), keys: KeyMode::Tracked, alphabet: 0, ops: vec![] };
+        d.cfg.sketch_seed = Some(fnv64(serde_json::to_string(c).unwrap_or_default().as_bytes()));
+        d
+    };
+    journal_for(ctx, "big");
+    let (acc, found) = run_engine(&strat, &exec, &hash_case, &ctx.id, ctx.seed, 0x7b16 + prop as u64, ctx.workers, ctx.cases(q, t), &ctx.known);
+    let shrink = |c: &BigCase, f: &dyn Fn(&BigCase) -> bool| -> BigCase {
+        let mut cur = c.clone();
+        let mut i = 0;
+        while i < cur.ops.len() {
+            let mut x = cur.clone();
+            x.ops.remove(i);
+            if f(&x) {
+                cur = x;
+            } else {
+                i += 1;
+            }
+        }
+        cur
+    };
+    finish(ctx, "", acc, found, out, "big", &exec, &shrink);
+}
+
 /// C17 over conversions: the same ordered source converted twice gives the same cache
 pub fn check_conv_det(ctx: &Ctx, out: &mut Outcome, q: u32, t: u32) {
     use crate::conv::*;
